@@ -824,11 +824,56 @@ type retCase struct {
 	via *Edge // the edge into the exit block that selects this case (nil: the Return itself)
 }
 
+// unspill: a function with defers returns through result slots (*t0 = v; rundefers; return *t0): the value stored
+// into the slot in the return's own block is what this return yields.
+func unspill(ret *ssa.Return, v ssa.Value) ssa.Value {
+	ld, ok := v.(*ssa.UnOp)
+	if !ok || ld.Op != token.MUL {
+		return v
+	}
+	al, ok := ld.X.(*ssa.Alloc)
+	if !ok || al.Heap {
+		return v
+	}
+	var last ssa.Value
+	for _, in := range ret.Block().Instrs {
+		if in == ssa.Instruction(ret) {
+			break
+		}
+		if st, isSt := in.(*ssa.Store); isSt && st.Addr == ssa.Value(al) {
+			last = st.Val
+		}
+	}
+	if last != nil {
+		return last
+	}
+	return v
+}
+
 func (g *FG) retCases() []retCase {
 	var out []retCase
 	for _, x := range g.returns {
 		ret := g.ins[x].(*ssa.Return)
 		b := ret.Block()
+		if ret.Parent() != nil && ret.Parent().Recover != nil && b == ret.Parent().Recover {
+			continue // the recover block's return re-reads the slots; it is not a return statement of the source
+		}
+		res0 := make([]ssa.Value, len(ret.Results))
+		for i, rv := range ret.Results {
+			res0[i] = unspill(ret, rv)
+		}
+		if len(res0) > 0 {
+			same := true
+			for i := range res0 {
+				if res0[i] != ret.Results[i] {
+					same = false
+				}
+			}
+			if !same {
+				out = append(out, retCase{res: res0, x: x})
+				continue
+			}
+		}
 		split := false
 		for _, rv := range ret.Results {
 			if ph, ok := rv.(*ssa.Phi); ok && ph.Block() == b && len(ph.Edges) == len(b.Preds) {
